@@ -14,7 +14,7 @@
     attr_value_roundtrip uri_attrs_scheme_serialised default_config_script_free
     html_reparse_safe_partial xhtml_reparse_safe_partial default_config_markup_ok css_pass_order_matters
     attr_values_decode_stable html_reparse_events_safe_partial redecode_witness
-    css_ok css_no_negative_margin password_inputs_dropped no_password_input password_rule_reference_witness
+    css_ok css_no_negative_margin password_inputs_dropped no_password_input no_password_input_after_decoding password_rule_reference_witness
     html_reparse_prolog_safe_partial xhtml_reparse_prolog_safe_partial xhtml_doctype_quote_witness
     decode_loop_fuel_independent comment_loop_fuel_independent loops_end_stable
 -/
@@ -451,19 +451,20 @@ example : sanitize styleCfg [.start divTag [(styleName,
 /-! ## The password rule of `is_safe_elem`
 
   "Password fields can be used for phishing": an `input` element (by `QName.localname`) whose
-  `type` attribute, lower-cased, is `password` is treated like an element outside the safe set.
-  The code looks at the `type` value of the INPUT event, before the attribute loop decodes
-  character references in it; so the statement about the output alone needs the hypothesis that
-  the `type` values of the input hold no reference (true of what html.parser + genshi's HTML
-  parser deliver except for triple-encoded references, see `password_rule_reference_witness`). -/
+  `type` attribute is `password` in any letter case is treated like an element outside the safe
+  set.  Until wave 4 the code compared the UNDECODED `type` value of the input event, while the
+  attribute loop emits the decoded one: `<input type="pass&amp;amp;#119;ord">` passed the rule and
+  was written as `<input type="password">` (finding C06-password-reference, repaired: the rule now
+  decodes the value until no reference is left, as the attribute loop does).  The statement
+  about the output alone therefore no longer needs a hypothesis on the input values. -/
 
 /-- Every emitted START event stems from an input START event of the same tag whose attributes
-    were filtered and which was no password field: `localname = input ∧ lower(type) = password`
-    is false of the input element — for all streams. -/
+    were filtered and which was no password field: `localname = input ∧ lower(decoded type) =
+    password` is false of the input element — for all streams. -/
 theorem password_inputs_dropped {cfg : Cfg} {s o : Stream} (h : sanitize cfg s = .ok o)
     {tag : QName} {attrs : AttrList} (hm : Event.start tag attrs ∈ o) :
     ∃ attrs0, Event.start tag attrs0 ∈ s ∧ sanAttrs cfg attrs0 = .ok attrs ∧
-      ¬ (localname tag = inputWord ∧ pyLower (attrGet attrs0 typeWord) = passwordWord) := by
+      ¬ (localname tag = inputWord ∧ pyLower (stripRefsD (attrGet attrs0 typeWord)) = passwordWord) := by
   obtain ⟨st1, e, hes, hem⟩ := sanitizeFrom_mem h _ hm
   cases hem with
   | start tag' attrs0 as he hw hsafe has =>
@@ -474,11 +475,12 @@ theorem password_inputs_dropped {cfg : Cfg} {s o : Stream} (h : sanitize cfg s =
     simp [hl, ht] at hsafe
   | other hw hns hnc => exact absurd rfl (hns tag attrs)
 
-/-- **The output never contains a password field**: no emitted `input` element has a `type`
-    attribute that is `password` in any letter case — when the `type` values of the input stream
-    hold no character reference and `type` is not configured as a URI attribute. -/
+/-- **The output never contains a password field** — for ALL streams (wave 4: no hypothesis on the
+    input values any more): no emitted `input` element (by local name) has a `type` attribute
+    that is `password` in any letter case.  The one hypothesis left is on the configuration:
+    `type` is not configured as a URI attribute (then the first `type` attribute could be dropped
+    by the scheme test and a second one take its place). -/
 theorem no_password_input {cfg : Cfg} (hu : typeWord ∉ cfg.uriAttrs) {s o : Stream}
-    (hplain : ∀ t as, Event.start t as ∈ s → ∀ a ∈ as, a.1.text = typeWord → stripentities a.2 = .ok a.2)
     (h : sanitize cfg s = .ok o) {tag : QName} {attrs : AttrList} (hm : Event.start tag attrs ∈ o)
     (hl : localname tag = inputWord) : pyLower (attrGet attrs typeWord) ≠ passwordWord := by
   obtain ⟨attrs0, hin, has, hno⟩ := password_inputs_dropped h hm
@@ -486,20 +488,44 @@ theorem no_password_input {cfg : Cfg} (hu : typeWord ∉ cfg.uriAttrs) {s o : St
     cases hc : cfg.uriAttrs.contains typeWord with
     | false => rfl
     | true => exact absurd (by simpa using hc) hu
-  rw [sanAttrs_attrGet_type hu' attrs0 attrs (hplain tag attrs0 hin) has]
-  by_cases hs : cfg.safeAttrs.contains typeWord = true
-  · rw [if_pos hs]; exact fun ht => hno ⟨hl, ht⟩
-  · rw [if_neg hs]; exact pyLower_nil_ne_password
+  rcases sanAttrs_attrGet_type hu' attrs0 attrs has with ⟨_, h0⟩ | ⟨_, h1⟩
+  · rw [h0]; exact pyLower_nil_ne_password
+  · rw [h1]
+    by_cases hs : cfg.safeAttrs.contains typeWord = true
+    · rw [if_pos hs]; exact fun ht => hno ⟨hl, ht⟩
+    · rw [if_neg hs]; exact pyLower_nil_ne_password
+
+/-- what `no_password_input` says carries over to the value as emitted: it is a fixed point of
+    reference decoding (`attr_values_decode_stable`), so no reader that decodes once more turns
+    it into `password` either -/
+theorem no_password_input_after_decoding {cfg : Cfg} (hu : typeWord ∉ cfg.uriAttrs) {s o : Stream}
+    (h : sanitize cfg s = .ok o) {tag : QName} {attrs : AttrList} (hm : Event.start tag attrs ∈ o)
+    (hl : localname tag = inputWord) : pyLower (stripRefsD (attrGet attrs typeWord)) ≠ passwordWord := by
+  have hst : stripentities (attrGet attrs typeWord) = .ok (attrGet attrs typeWord) := by
+    unfold attrGet
+    cases hf : attrs.find? (fun a => a.1.text == typeWord) with
+    | none => decide
+    | some a =>
+      obtain ⟨st1, e, _, hem⟩ := sanitizeFrom_mem h _ hm
+      cases hem with
+      | start tag' attrs0 as he hw hsafe has =>
+        obtain ⟨a0, _, hsa⟩ := sanAttrs_mem has a (List.mem_of_find?_eq_some hf)
+        exact (sanAttr_some hsa).stable
+      | other hw hns hnc => exact absurd rfl (hns tag attrs)
+  rw [stripRefsD_eq (stripRefs_of_stable hst)]
+  exact no_password_input hu h hm hl
 
 def inputTag : QName := ⟨[], inputWord⟩
 def typeName : QName := ⟨[], typeWord⟩
 
-/-- The hypothesis of `no_password_input` is needed (observation, outside the property text): the
-    rule reads the undecoded value, the attribute loop then decodes it — `type="pass&#119;ord"`
-    in the event stream is emitted as `type="password"`. -/
+/-- Regression of the repaired finding C06-password-reference: `type="pass&#119;ord"` and
+    `type="pass&amp;#119;ord"` in the event stream (what the HTML parser delivers for
+    `pass&amp;amp;#119;ord` resp. one more layer) are password fields now: dropped with their content. -/
 theorem password_rule_reference_witness :
     sanitize Cfg.default [.start inputTag [(typeName, ['p', 'a', 's', 's', '&', '#', '1', '1', '9', ';', 'o', 'r', 'd'])],
-      .end_ inputTag] = .ok [.start inputTag [(typeName, passwordWord)], .end_ inputTag] := by
+      .text ['x'] false, .end_ inputTag,
+      .start inputTag [(typeName, ['P', 'a', 's', 's', '&', 'a', 'm', 'p', ';', '#', '1', '1', '9', ';', 'o', 'r', 'd'])],
+      .end_ inputTag, .text ['y'] false] = .ok [.text ['y'] false] := by
   decide +kernel
 
 -- non-vacuity: a password field (mixed case) is dropped with its content, also under a name in
